@@ -106,6 +106,8 @@ def plan(tier, seed):
     for s in range(0, nz, 50 if tier == "quick" else 250):
         e = min(nz, s + (50 if tier == "quick" else 250))
         units.append({"kind": "zoom", "start": s, "stop": e, "w": (e - s) * 1.0})
+    if tier == "thorough":
+        units.append({"kind": "suite", "w": 200})      # the repository's own tests with the contracts installed
     return units
 
 
